@@ -126,6 +126,12 @@ def run_execution(cfg, prefix, record=False):
             marks["calls"].append(rec)
             if rec["exc"] is not None and cfg["behaviours"][k] == "loss":
                 break
+            if cfg.get("gap"):
+                # the caller does something else for a while: everything the device still has to say arrives meanwhile
+                idle = 0
+                while idle < 3:
+                    sleep(0.01)
+                    idle = 0 if (ex.dev.pending or ex.dev.rx) else idle + 1
         try:
             w.disconnect(True)
         except Exception as e:    # noqa: BLE001
@@ -381,6 +387,12 @@ def plan(tier):
                 items.append((c, 1, None))
         for c in cfgs(three, ("report+ok", "ok", "report-in-ok"), ("Q",), (None, "start"), (False, True), False):
             items.append((c, 2, 20000))
+        # pauses between the caller's statements: unsolicited lines arrive while no write() is in flight
+        for behs in (("ok+async-alarm", "ok", "report+ok"), ("ok", "ok+async-alarm", "ok"), ("status+ok", "report+ok", "ok")):
+            for c in cfgs(three, behs, ("Q", "L"), (None,), (False, True), True):
+                items.append(({**c, "gap": True}, 0, None))
+            for c in cfgs(three, behs, ("Q",), (None,), (False,), False):
+                items.append(({**c, "gap": True}, 1, None))
         # a statement with non-ASCII text (the builder hands comments to direct writers as UTF-8 like to any other writer)
         for behs in (("ok", "report+ok"), ("status+ok", "error")):
             for c in cfgs(["; café ü ∅", "M114"], behs, ("Q", "L"), (None,), (False, True), True):
@@ -422,6 +434,9 @@ def plan(tier):
                 continue
             for c in cfgs(["; café ü ∅", "M117 Grüße"], behs, ("Q", "L"), (None,), (False, True), True):
                 items.append((c, 0, None))
+        for behs in itertools.product(("ok", "ok+async-alarm", "report+ok", "error"), repeat=3):
+            for c in cfgs(three, behs, ("Q", "L"), (None,), (False, True), True):
+                items.append(({**c, "gap": True}, 0, None))
         for loss_mode in ("eof",):
             for behs in (("loss", "ok"), ("ok", "loss")):
                 for c in cfgs(two, behs, ("Q", "L"), (None,), (False,), True):
